@@ -79,23 +79,30 @@ structure RAcc where
   tags : List String := []
   allTx : Str := []
 
+/-- sessions on the recording connection (slots 0-3) share group 0, chronologically -/
+def grp (k : Nat) : Nat := if k < 4 then 0 else k
+
 def RAcc.flush (a : RAcc) (k : Nat) : RAcc :=
   let tx := a.pend.getD k []
   if tx.isEmpty then a
   else
     let l := (if k = 8 then "P tx " else "P tx " ++ toString k ++ " ") ++ hexOfBytes tx
-    { a with lines := a.lines.setIfInBounds k (l :: a.lines.getD k []), pend := a.pend.setIfInBounds k [] }
+    { a with lines := a.lines.setIfInBounds (grp k) (l :: a.lines.getD (grp k) []), pend := a.pend.setIfInBounds k [] }
+
+def RAcc.switch (a : RAcc) (k : Nat) : RAcc :=
+  let a := if k < 4 then (List.range 4).foldl (fun a j => if j = k then a else a.flush j) a else a
+  { a with cur := k }
 
 def RAcc.put (a : RAcc) (l : String) : RAcc :=
   let a := a.flush a.cur
-  { a with lines := a.lines.setIfInBounds a.cur (l :: a.lines.getD a.cur []) }
+  { a with lines := a.lines.setIfInBounds (grp a.cur) (l :: a.lines.getD (grp a.cur) []) }
 
 /-- events → printed lines, grouped by session slot (as the harness groups them); within a slot
 adjacent sends are merged, ghost events are dropped, tags are collected into one `B` line -/
 def render (evs : List Ev) : List String :=
   let a := evs.foldl (fun (a : RAcc) (e : Ev) =>
     match e with
-    | .slot k => { a with cur := min k 8 }
+    | .slot k => a.switch (min k 8)
     | .tx _ bs => { a with pend := a.pend.setIfInBounds a.cur (a.pend.getD a.cur [] ++ bs), allTx := a.allTx ++ bs }
     | .probe id args => a.put ("P probe " ++ toString id ++ " " ++ toString args.length ++
         String.join (args.map fun x => " " ++ hexOfBytes x))
